@@ -4,13 +4,19 @@ package main
 // at every position; (benign, violation) pairs; signing times on and around every validity bound.
 
 import (
+	"context"
 	"crypto/x509"
 	"encoding/asn1"
+	"errors"
 	"fmt"
 	"math/rand"
+	"net/http"
 	"sync"
 	"time"
 
+	"github.com/notaryproject/notation-core-go/revocation"
+	"github.com/notaryproject/notation-core-go/revocation/purpose"
+	"github.com/notaryproject/notation-core-go/revocation/result"
 	nx509 "github.com/notaryproject/notation-core-go/x509"
 )
 
@@ -351,6 +357,34 @@ func runChainJob(r *Runner, j chainJob, idx int) {
 	c := &Case{ID: fmt.Sprintf("%s-%d", j.label, idx), K: "chain", In: in,
 		Impl:  implOut,
 		Class: j.label, Replay: map[string]any{"chain_pem": pemChain(chain), "st": in["st"], "purpose": j.purpose, "impl_error": detail, "expected_by_catalogue": expectBenign}}
+	// "the same chain is what the revocation validator demands when configured for that purpose": the validator (no source is
+	// named by these certificates, so nothing is contacted) refuses the chain as invalid exactly when the chain validator does
+	if panicked == nil && (j.stKind == "nil" || j.stKind == "" || j.purpose == "ts") {
+		pp := purpose.CodeSigning
+		if j.purpose == "ts" {
+			pp = purpose.Timestamping
+		}
+		var verr error
+		var vp any
+		func() {
+			defer func() { vp = recover() }()
+			v, e := revocation.NewWithOptions(revocation.Options{OCSPHTTPClient: &http.Client{Transport: roundTripFunc(func(*http.Request) (*http.Response, error) { return nil, errors.New("no network") })},
+				CRLFetcher: &scriptedFetcher{m: map[string]*fetchBehaviour{}}, CertChainPurpose: pp})
+			if e != nil {
+				panic(e)
+			}
+			_, verr = v.ValidateContext(context.Background(), revocation.ValidateContextOptions{CertChain: chain})
+		}()
+		var ice result.InvalidChainError
+		refused := errors.As(verr, &ice)
+		if vp != nil || refused != (implErr != nil) {
+			lc := &Case{ID: fmt.Sprintf("%s-%d-revocation-validator", j.label, idx), K: "chain", In: in, Class: "revocation-validator:" + j.label,
+				Impl:   map[string]any{"chain_validator_accepts": implErr == nil, "revocation_validator_refuses_as_invalid_chain": refused, "panic": vp},
+				Replay: map[string]any{"chain_pem": pemChain(chain), "purpose": j.purpose, "revocation_validator_error": fmt.Sprint(verr)}}
+			lc.local, lc.localClause = true, "revocation_validator_and_chain_validator_disagree_about_the_chain"
+			r.Submit(lc)
+		}
+	}
 	// catalogue expectation is a *generator self-check* (not an oracle): recorded for the distribution only
 	if j.stKind == "nil" || j.stKind == "" || j.stKind == "mid" {
 		if expectBenign != (implErr == nil) {
